@@ -38,9 +38,19 @@ const (
 // unsatisfiable in the test engine, panic escaping the compiled solver.
 const SigTEZeroScalar = "twistededwards-scalarmul-zero-scalar"
 
-// twistededwards scalarMulFakeGLV: the hinted (s1, s2, bit, k) may be all zero; [0]P + [0]Q = (0,1) holds for every
-// hinted result Q, which is returned unconstrained.
+// twistededwards scalarMulFakeGLV: the decomposition is not bound to the scalar. The hinted (s1, s2, bit, k) may be
+// all zero ([0]P + [0]Q = (0,1) for every hinted Q), and since k is an unbounded native hint output, any small
+// (s1, s2) passes s1 +- s2*s == k*Order with k solved in the native field: the circuit accepts Q = [s']P for any s'.
+// The exclusion covers exactly the strategies that rewrite the halfGCD hint outputs of twistededwards.
 const SigTEZeroSubscalars = "twistededwards-fakeglv-zero-subscalars-any-output"
+
+func teAltersHalfGCD(strategy string) bool {
+	switch strategy {
+	case "zero-subscalars", "flip-bit", "perturb", "zero-one", "decomp-of-claim", "free-k":
+		return true
+	}
+	return false
+}
 
 func excludedTE(curve, op string, scalars []string) string {
 	if _, ok := open(SigTEZeroScalar); ok && op == "ScalarMul" {
@@ -55,6 +65,19 @@ func excludedTE(curve, op string, scalars []string) string {
 // std/signature/ecdsa Verify compares the bits of x(R) (reduced mod p) with the bits of r without reducing x(R)
 // mod n: a natively valid signature whose commitment has n <= x(R) < p (r = x(R) - n) is rejected.
 const SigECDSANoReduction = "ecdsa-xR-not-reduced-mod-n"
+
+// PairingCheck (sw_bn254, sw_bls12381, native sw_bls12377; same loops in the other pairing packages): the
+// pairingCheckHint parses `for k := 0; k < n/6+1; k += 2` / `for k := n/3; k < n/2+3; k += 4`, i.e. only
+// ceil((N+1)/2) of the N input pairs: for N >= 3 pairs the residue witness is computed on a subset and a true
+// pairing equation is unsatisfiable.
+const SigPairingCheck3 = "pairingcheck-hint-three-or-more-pairs"
+
+func excludedPair(c *PairCase, r *big.Int) string {
+	if _, ok := open(SigPairingCheck3); ok && c.Kind == "check" && len(c.A)+1 >= 3 && new(big.Int).Mod(unhx(c.Delta), r).Sign() == 0 {
+		return SigPairingCheck3
+	}
+	return ""
+}
 
 func excludedECDSA(c *ECDSACase) string {
 	cv := curves[c.Curve]
@@ -272,6 +295,11 @@ func probes() []probe {
 	p256 := curves["p256"]
 	sw(SigFakeGLVScalarOne, SWCase{Curve: "p256", Op: opMul, Points: []Pt{p256.derive("probe").pt()}, Scalars: []Sc{val(big.NewInt(3))}})
 	sw(SigFakeGLVScalarOne, SWCase{Curve: "p256", Op: opMul, Complete: true, Points: []Pt{p256.G.pt()}, Scalars: []Sc{val(big.NewInt(1))}})
+	// PairingCheck with three pairs: e(5G1,3G2) e(7G1,2G2) e(-29G1,G2) = 1
+	for _, cu := range []string{"bn254", "bls12377"} {
+		pc := PairCase{Curve: cu, Kind: "check", A: []string{"5", "7"}, B: []string{"3", "2"}, Delta: "0"}
+		ps = append(ps, probe{SigPairingCheck3, "pairing", pc, func() ev.Outcome { return runPair(pc) }})
+	}
 	// ECDSA: valid signature with x(R) = n + 2 (secp256k1)
 	ec := ECDSACase{Curve: "secp256k1", Q: Pt{X: "eaec0bb888d4b60c4348e430a73b6ba4a37448224973a3e9d8add7cedd047441", Y: "826ad2139cf05e113d7a22eca938d1c8196add3a0d6419cbd0ed467715d06d14"}, R: "2",
 		S: "821bd05eb8bd015babe8b09ee827326645049b0cd3201cb81c2e3f25cd343161", M: "7f0745955f4bd0c406fa1e3752ca0e373b3ec43f6d84eea68202a3116e2d61e6", Mut: "x(R)>=n"}
@@ -279,6 +307,9 @@ func probes() []probe {
 	// twisted Edwards ScalarMul with the half-GCD hint outputs all zero and the hinted result replaced
 	tea := TEAdvCase{Curve: "bn254", P: teCurves["bn254"].derive("probe").pt(), S: "1c0503b3050701ff00910002030318cba90c00911f445f07", Claim: "addB", Strategy: "zero-subscalars"}
 	ps = append(ps, probe{SigTEZeroSubscalars, "te-adv", tea, func() ev.Outcome { return runTEAdv(tea) }})
+	// same root cause: decomposition of s+1 with the overflow counter k solved in the native field => [s+1]P accepted
+	teb := TEAdvCase{Curve: "bn254", P: tea.P, S: tea.S, Claim: "next", Strategy: "free-k"}
+	ps = append(ps, probe{SigTEZeroSubscalars, "te-adv", teb, func() ev.Outcome { return runTEAdv(teb) }})
 	// twisted Edwards ScalarMul(P, 0)
 	te := TECase{Curve: "bn254", Op: "ScalarMul", Points: []Pt{teCurves["bn254"].derive("probe").pt()}, Scalars: []string{"0"}}
 	ps = append(ps, probe{SigTEZeroScalar, "te", te, func() ev.Outcome { return runTE(te) }})
@@ -326,6 +357,34 @@ func registerMoreReplays(reg func(kind string, f func(raw json.RawMessage) strin
 			return ""
 		}
 		return runECDSA(c).Violation
+	})
+	reg("pairing", func(raw json.RawMessage) string {
+		var c PairCase
+		if json.Unmarshal(raw, &c) != nil {
+			return ""
+		}
+		return runPair(c).Violation
+	})
+	reg("ecrecover", func(raw json.RawMessage) string {
+		var c ECRecCase
+		if json.Unmarshal(raw, &c) != nil {
+			return ""
+		}
+		return runECRec(c).Violation
+	})
+	reg("evm-bn", func(raw json.RawMessage) string {
+		var c BNCase
+		if json.Unmarshal(raw, &c) != nil {
+			return ""
+		}
+		return runBN(c).Violation
+	})
+	reg("expmod", func(raw json.RawMessage) string {
+		var c ExpmodCase
+		if json.Unmarshal(raw, &c) != nil {
+			return ""
+		}
+		return runExpmod(c).Violation
 	})
 	reg("te", func(raw json.RawMessage) string {
 		var c TECase
